@@ -911,6 +911,7 @@ pub open spec fn pk_skip(d: Seq<u8>, k: int) -> int
     if k <= 0 { 0 } else { pk_skip(d, k - 1) + d[pk_off(d, k - 1)] as int }
 }
 """},
+        {"kind": "fn", "file": "palette", "name": "num_colors", "impl_of": "ColorPalette", "ret": "r"},
         {"kind": "fn", "file": "palette", "name": "color", "impl_of": "ColorPalette", "ret": "r",
          "ensures": "        (r is Some) == self.entries@.contains_key(index), r is Some ==> *(r->0) == self.entries@[index],"},
         {"kind": "fn", "file": "palette", "name": "scale_6bit_to_8bit", "ret": "r", "rules": ["R1", "R6", "R11"],
